@@ -52,8 +52,16 @@ pub struct Case {
 fn bad() -> impl Strategy<Value = Bad> {
 	let ncat = block_catalogue().len() as u8;
 	prop_oneof![
-		10 => (0..ncat, raw_block(0)).prop_map(|(i, b)| Bad::Tamper(i, b)),
-		4 => raw_block(1000).prop_map(Bad::Neg),
+		10 => (0..ncat, raw_block(0), prop_oneof![2 => Just(0u8), 1 => 101u8..=104]).prop_map(|(i, mut b, p)| {
+			b.parent = p;
+			Bad::Tamper(i, b)
+		}),
+		// on the head, or on an ancestor of the head (a sibling of the head or deeper: the best chain is
+		// rewound, the block is refused before anything is re-applied)
+		4 => (raw_block(1000), prop_oneof![1 => Just(0u8), 1 => 101u8..=104]).prop_map(|(mut b, p)| {
+			b.parent = p;
+			Bad::Neg(b)
+		}),
 		1 => raw_block(0).prop_map(Bad::HeaderBatchSecondBad),
 		1 => raw_block(0).prop_map(Bad::HeaderBatchBadRoot),
 		1 => raw_block(0).prop_map(Bad::HeaderBadRoot),
@@ -241,15 +249,31 @@ pub fn run_case(ctx: &Ctx, case: &Case, counting: bool) -> PResult {
 					Bad::Tamper(ci, raw) => {
 						let t = cat[*ci as usize % cat.len()];
 						let mut r = raw.clone();
-						r.parent = 0;
+						if r.parent < 100 {
+							r.parent = 0;
+						}
 						r.neg = Neg::None;
+						// the corrupted block's parent: the head, or an ancestor of it (the block is a fork block)
+						let mut pn = head;
+						if r.parent >= 100 {
+							for _ in 0..(r.parent - 100) {
+								if pn != 0 {
+									pn = w.nodes[pn].parent;
+								}
+							}
+							if w.nodes[pn].height() < w.min_parent_height {
+								pn = head;
+								r.parent = 0;
+							}
+						}
+						let prev = w.nodes[pn].block.header.clone();
 						let specs = w.resolve_specs(&r, head);
 						for s in &specs {
 							for x in s.inputs.iter().chain(s.outputs.iter()) {
 								w.note(x);
 							}
 						}
-						let cb_key = (prev.height as u32 + 1) * 4 + 2;
+						let cb_key = (prev.height as u32 + 1) * 4 + if pn == head { 2 } else { 3 };
 						let tb = tampered_block(a.c(), &prev, &specs, cb_key, r.dt as i64, t, pick).map_err(|e| Fail::new("builder", format!("op {} {:?}: {}", i, t, e)))?;
 						let Some(tb) = tb else { continue };
 						if tb.valid {
@@ -260,12 +284,17 @@ pub fn run_case(ctx: &Ctx, case: &Case, counting: bool) -> PResult {
 						stages.insert(format!("{:?}", tb.stage));
 						if counting {
 							ev.class(&format!("bad_stage:{:?}", tb.stage));
+							if pn != head {
+								ev.class("corrupted_block_on_an_ancestor_of_the_head");
+							}
 						}
 						seen_bad = true;
 					}
 					Bad::Neg(raw) => {
 						let mut r = raw.clone();
-						r.parent = 0;
+						if r.parent < 100 {
+							r.parent = 0;
+						}
 						let built = w.build(a.c(), &r, head).map_err(|e| Fail::new("builder", format!("op {}: {}", i, e)))?;
 						if built.verdict.is_ok() {
 							continue; // the defect could not be constructed here
@@ -275,6 +304,9 @@ pub fn run_case(ctx: &Ctx, case: &Case, counting: bool) -> PResult {
 						stages.insert(format!("Utxo:{:?}", built.neg));
 						if counting {
 							ev.class(&format!("bad_stage:Utxo:{:?}", built.neg));
+							if built.parent != head {
+								ev.class("bad_utxo_level_block_on_an_ancestor_of_the_head");
+							}
 						}
 						seen_bad = true;
 					}
